@@ -1,4 +1,5 @@
 import Goflow.Pipe
+import Goflow.Generated.Pool
 import Proofs.Lemmas.Assoc
 /-!
   C11 — Sampling rate follows the exporter's latest announcement.
@@ -64,5 +65,10 @@ theorem v5_rate (p : V5.Packet) : ∀ m ∈ processLegacy p, m.samplingRate = p.
 
 /-- non-vacuity of `search_order` -/
 example : searchSamplingRate [⟨[], [⟨false, 34, 0, some [0,0,0,7]⟩, ⟨false, 305, 0, some [0,0,1,0]⟩]⟩] = .ok (some 256) := by decide
+
+/-- the key of the sampling-rate store in the source now is the pair (version, 32-bit domain) `Rates` is keyed by — regenerated -/
+theorem samplingKey_source :
+    Goflow.Generated.samplingKeyType = "struct { version uint16 obsDomainId uint32 }" := by
+  decide +kernel
 
 end Goflow.C11
